@@ -65,6 +65,7 @@ type c12store struct {
 	watchPm    int  // tape-chosen watch fault rate per notification (per mille)
 	crashes    int
 	maxCrash   int
+	deadline   bool // injected write failures coincide with the caller's deadline (its context is cancelled)
 	perturbed  bool // a crash, a store error or a watch fault has fired in this run
 	// oracle hooks
 	onDeliver func(w *c12watcher, ev *c12event)
@@ -162,6 +163,22 @@ func (h *c12handle) die() {
 	h.st.c.S.DieIfDead()
 }
 
+// c12cancelKey carries the cancel function of the operation's context: in runs
+// with the deadline knob, a store write fails *because* the caller's deadline
+// fired while it was in flight, so the context is already done when the
+// allocator handles the error.
+type c12cancelKey struct{}
+
+func c12deadline(h *c12handle, ctx context.Context) {
+	if !h.st.deadline {
+		return
+	}
+	if cancel, ok := ctx.Value(c12cancelKey{}).(context.CancelFunc); ok {
+		cancel()
+		h.st.c.S.Fault("caller.deadline-during-store-write")
+	}
+}
+
 func (h *c12handle) Get(ctx context.Context, key string) ([]byte, error) {
 	fail, cb, ca := h.plan("get")
 	if cb {
@@ -186,6 +203,7 @@ func (h *c12handle) Put(ctx context.Context, key string, value []byte) error {
 		h.die()
 	}
 	if fail {
+		c12deadline(h, ctx)
 		return fmt.Errorf("put %s: %w", key, errC12Injected)
 	}
 	st := h.st
@@ -212,6 +230,7 @@ func (h *c12handle) Delete(ctx context.Context, key string) error {
 		h.die()
 	}
 	if fail {
+		c12deadline(h, ctx)
 		return fmt.Errorf("delete %s: %w", key, errC12Injected)
 	}
 	st := h.st
